@@ -131,7 +131,15 @@ func checkC09(c *Ctx) error {
 		files := map[string]string{}
 		for j, f := range lay.files {
 			y := parts[j].YAML()
-			_ = work.WriteFile(filepath.Join(dir, f), []byte(y))
+			if (i+j)%4 == 1 {
+				// the file the pattern matches is a symbolic link to the real file kept elsewhere (ConfigMap-style mounts)
+				real := filepath.Join(dir, "real-files", fmt.Sprintf("frag%d.data", j))
+				_ = work.WriteFile(real, []byte(y))
+				_ = os.MkdirAll(filepath.Dir(filepath.Join(dir, f)), 0o755)
+				_ = os.Symlink(real, filepath.Join(dir, f))
+			} else {
+				_ = work.WriteFile(filepath.Join(dir, f), []byte(y))
+			}
 			files["input/"+f] = y
 		}
 		files["patterns.txt"] = strings.Join(lay.patterns, "\n")
@@ -218,6 +226,22 @@ func checkC09(c *Ctx) error {
 				c.Violate("empty-file-not-identity", "adding empty files changes the output\n"+firstDiff(outB, outE), files)
 			}
 			c.Add("identity_compared", 1)
+		}
+		// (F) patterns that match nothing, anywhere in the list, do not change the output
+		{
+			var pats []string
+			for x, pt := range lay.patterns {
+				if (i+x)%2 == 0 {
+					pats = append(pats, fmt.Sprintf("no-such-dir-%d/*.yaml", x))
+				}
+				pats = append(pats, pt)
+			}
+			pats = append(pats, "nothing-at-all-*.yml")
+			_, outF := runBuild(c, dir, pats)
+			if outF != outB {
+				c.Violate("empty-pattern-not-identity", fmt.Sprintf("adding patterns that match no file changes the output (patterns %v)\n%s", pats, firstDiff(outB, outF)), files)
+			}
+			c.Add("empty_patterns_compared", 1)
 		}
 		if i == 2 {
 			c.Sample(map[string]any{"patterns": lay.patterns, "expected_file_order": lay.files, "fragments": fragmentTexts(parts), "outputs_equal": outA == outB})
